@@ -8,9 +8,11 @@ import (
 	"net"
 	"net/http"
 	"reflect"
+	"runtime"
 	"sort"
 	"strconv"
 	"strings"
+	"sync/atomic"
 	"time"
 
 	"github.com/tmpim/casket"
@@ -166,6 +168,7 @@ type relayRig struct {
 
 	base        string // target base path
 	without     string
+	flushSeq    int
 	upRules     [][2]string // header_upstream
 	downRules   [][2]string
 	transparent bool
@@ -230,9 +233,63 @@ func setupRelayProxy(c *casket.Controller) error {
 		}
 	}
 	httpserver.GetConfig(c).AddMiddleware(func(next httpserver.Handler) httpserver.Handler {
-		return proxy.Proxy{Next: next, Upstreams: ups}
+		px := proxy.Proxy{Next: next, Upstreams: ups}
+		return httpserver.HandlerFunc(func(w http.ResponseWriter, req *http.Request) (int, error) {
+			m := &rwMonitor{ResponseWriterWrapper: &httpserver.ResponseWriterWrapper{ResponseWriter: w}, rig: rig, owner: goid(), id: req.Header.Get("X-Req")}
+			return px.ServeHTTP(m, req)
+		})
 	})
 	return nil
+}
+
+// rwMonitor stands between the proxy and the ResponseWriter it was given.
+// net/http allows one goroutine at a time on a ResponseWriter: the monitor
+// reports overlapping calls, and it turns a Flush made by another goroutine
+// than the handler's (the proxy's periodic flusher) into a scheduling point
+// whenever that Flush holds none of the proxy's writer locks.
+type rwMonitor struct {
+	*httpserver.ResponseWriterWrapper
+	rig    *relayRig
+	owner  uint64
+	id     string
+	inside int32
+}
+
+func goid() uint64 {
+	var buf [64]byte
+	n := runtime.Stack(buf[:], false)
+	var id uint64
+	fmt.Sscanf(string(buf[:n]), "goroutine %d ", &id)
+	return id
+}
+
+func (m *rwMonitor) enter(op string) func() {
+	if n := atomic.AddInt32(&m.inside, 1); n > 1 && !m.rig.cleanup {
+		m.rig.c.Violate("C04/response-writer-shared", op, "request %s: %s was called on the ResponseWriter while another call on it was in progress (the response bytes are no longer defined)", m.id, op)
+	}
+	return func() { atomic.AddInt32(&m.inside, -1) }
+}
+
+func (m *rwMonitor) WriteHeader(code int) {
+	defer m.enter("WriteHeader")()
+	m.ResponseWriterWrapper.WriteHeader(code)
+}
+
+func (m *rwMonitor) Write(p []byte) (int, error) {
+	defer m.enter("Write")()
+	return m.ResponseWriterWrapper.Write(p)
+}
+
+func (m *rwMonitor) Flush() {
+	defer m.enter("Flush")()
+	if !m.rig.cleanup && goid() != m.owner {
+		m.rig.c.Probe("periodic-flush-reached-the-response-writer")
+		if Applied("proxylock") && proxy.VerifLocksHeld() == 0 {
+			m.rig.flushSeq++
+			m.rig.c.Park(fmt.Sprintf("hook.flush/%s#%d", m.id, m.rig.flushSeq), "flusher:"+m.id)
+		}
+	}
+	m.ResponseWriterWrapper.Flush()
 }
 
 func init() {
@@ -367,12 +424,22 @@ func runRelay(c *sim.Ctl) {
 	}
 	if pick(30) {
 		r.upRules = append(r.upRules, [2]string{"+X-Multi", "added-by-rule"})
+		if pick(50) {
+			// several add rules for one field add several values, in the order written
+			r.upRules = append(r.upRules, [2]string{"+X-Multi", "added-by-second-rule"})
+		}
 	}
 	if pick(60) {
 		r.downRules = append(r.downRules, [2]string{"X-Down-Added", "down-value"})
 	}
 	if pick(40) {
 		r.downRules = append(r.downRules, [2]string{"-X-Backend-Secret", ""})
+	}
+	if pick(30) {
+		r.downRules = append(r.downRules, [2]string{"+Link", "</one.css>; rel=preload"})
+		if pick(60) {
+			r.downRules = append(r.downRules, [2]string{"+Link", "</two.js>; rel=preload"})
+		}
 	}
 	var b strings.Builder
 	fmt.Fprintf(&b, "http://r.test:0 {\n\tbind 127.0.0.1\n\tsimnet v0\n\tsimrelay /api http://10.7.0.1:80%s {\n", r.base)
@@ -389,7 +456,11 @@ func runRelay(c *sim.Ctl) {
 		fmt.Fprintf(&b, "\t\theader_upstream %s %s\n", u[0], u[1])
 	}
 	for _, d := range r.downRules {
-		fmt.Fprintf(&b, "\t\theader_downstream %s %s\n", d[0], d[1])
+		if d[1] == "" {
+			fmt.Fprintf(&b, "\t\theader_downstream %s\n", d[0])
+		} else {
+			fmt.Fprintf(&b, "\t\theader_downstream %s %q\n", d[0], d[1])
+		}
 	}
 	b.WriteString("\t}\n}\n")
 	text := b.String()
